@@ -31,6 +31,8 @@ impl Default for SchemaBuilder {
 impl SchemaBuilder {
     pub(crate) fn built_in() -> &'static Self {
         static BUILT_IN: std::sync::OnceLock<SchemaBuilder> = std::sync::OnceLock::new();
+        #[cfg(apollo_rs_verif)]
+        let _verif_region = crate::verif::once_region("once:SchemaBuilder::built_in");
         BUILT_IN.get_or_init(|| {
             let mut builder = SchemaBuilder {
                 adopt_orphan_extensions: false,
